@@ -45,8 +45,13 @@ Definition div_raw_elem (exa exb exq : bool) (d : dop) (fx fy : fmt) (nfr : Z) (
   let lx := cast_if pc (load (storage fx) cx) in
   let ly := cast_if pc (load (storage fy) cy) in
   match d with
-  | DTrue =>      (* (x.val * 2**(n_frac - x.n_frac + y.n_frac)) // y.val *)
-      bind (mscale lx (nfr - nf fx + nf fy)) (fun a => Ok (mfloordiv a (load (storage fy) cy)))
+  | DTrue =>      (* scale_raw(x.val, shift) // y.val for shift = n_frac - x.n_frac + y.n_frac >= 0, x.val // scale_raw(y.val, -shift)
+                     otherwise; Python integers when the scaled side needs 64 bits or more (_raw_cast) *)
+      let k := nfr - nf fx + nf fy in
+      let rc := raw_cast (storage fx) (storage fy) (Z.max (nw fx + Z.max k 0) (nw fy + Z.max (- k) 0)) in
+      if 0 <=? k
+      then bind (mscale_raw false (cast_if rc (load (storage fx) cx)) k) (fun a => Ok (mfloordiv a (cast_if rc (load (storage fy) cy))))
+      else bind (mscale_raw false (cast_if rc (load (storage fy) cy)) (- k)) (fun b => Ok (mfloordiv (cast_if rc (load (storage fx) cx)) b))
   | DFloor =>     (* scale_raw(x.val, m - x.n_frac) // scale_raw(y.val, m - y.n_frac), m = max n_frac, then scale_raw(.., n_frac):
                      the raw values aligned on the finer fraction length, integer quotient, result fraction length *)
       let m := Z.max (nf fx) (nf fy) in
